@@ -203,6 +203,20 @@ func (g *gen) fingerprint(n int) {
 			g.emit("RAWDEC 1 0 0 %s", showHex(c))
 			g.emit("CHECK 1 fp")
 		}
+		// bytes after the declared end of the message: the CRC covers everything before the last 8 bytes of the raw
+		// message, whatever the header says
+		for _, k := range []int{1, 2, 3, 4, 5, 8, 1 + g.r.intn(12)} {
+			g.emit("RAWDEC 1 0 0 %s", showHex(append(append([]byte{}, b...), g.r.bytes(k)...)))
+			g.emit("CHECK 1 fp")
+		}
+		for k := 1; k <= 4; k++ { // ... and a value that is right for exactly that coverage is accepted
+			fpHdr := []byte{0x80, 0x28, 0x00, 0x04}
+			w := make([]byte, 4)
+			binary.BigEndian.PutUint32(w, fpValue(append(append([]byte{}, pre...), fpHdr[:k]...)))
+			c := wire(typ, tid, append(as, wattr{typ: 0x8028, val: w}))
+			g.emit("RAWDEC 1 0 0 %s", showHex(append(c, g.r.bytes(k)...)))
+			g.emit("CHECK 1 fp")
+		}
 		// FINGERPRINT attributes of any length and position
 		for _, l := range []int{0, 1, 3, 4, 5, 8} {
 			c := wire(typ, tid, append([]wattr{{typ: 0x8028, val: g.r.bytes(l), pad: make([]byte, pad4(l))}}, as...))
